@@ -51,7 +51,7 @@ def load(modname) -> ModuleSrc:
     m = _cache.get(modname)
     if m is None:
         m = ModuleSrc(modname)
-        if not os.path.abspath(m.file).startswith(os.path.abspath(REPO) + os.sep):
+        if not modname.startswith("pyvcfrag_") and not os.path.abspath(m.file).startswith(os.path.abspath(REPO) + os.sep):
             raise RuntimeError(f"{modname} was imported from {m.file}, not from {REPO}")
         _cache[modname] = m
     return m
